@@ -25,17 +25,118 @@ func defaultAvoid() avoid {
 	return avoid{}
 }
 
+
+const ruleSeq = "non-trivial = at least one committed transaction and a non-empty final state; distinct = distinct final model state hash"
+
 func init() {
+	seqStub := []string{"none needed (single client; disk = in-memory SimFile/SimReader where a restart is generated)"}
 	register(&PropDef{
 		ID: "C01", Quick: 6000, Thorough: 200000, Level: "exploration",
-		Rule: "single-client histories of insert/put/merge/delete/reuse over a swarm-drawn schema (up to 16 column kinds, late columns), capacity and block layout; after every step the full state read through Row/Txn/Any readers is compared with the model; non-trivial = at least one committed transaction and a non-empty final state; distinct = distinct final model state hash",
+		Rule: "single-client histories of insert/put/merge/delete/reuse over a swarm-drawn schema (all column kinds, merge variants, late columns), capacity and block layout (prefilled sparse/nearly-full blocks); after every step the full state read through Row/Txn/Any readers is compared with the model; " + ruleSeq,
 		Gen: func(seed uint64, run int, tier string) *Case {
 			p := seqProfile{minSteps: 4, maxSteps: 30, wTxn: 20, wCreateCol: 2,
 				wInsert: 8, wAt: 8, wRange: 3, wDelete: 3, wDeleteAll: 1,
-				pAbort: 0.05, pFailInsert: 0.0, pMerge: 0.35, maxCols: 12, multiBlock: 0.5}
+				pAbort: 0.05, pMerge: 0.35, maxCols: 12, multiBlock: 0.5}
 			return genSeq("C01", seed, run, p, knownAvoid("C01", seed, run))
 		},
 		Exec: func(cs *Case) *World { return runSeq(cs, seqOracles{dump: true}) },
-		Real: realComponents, Stub: []string{"none (single client, no files, no clock)"},
+		Real: realComponents, Stub: seqStub,
+	})
+	register(&PropDef{
+		ID: "C02", Quick: 5000, Thorough: 150000, Level: "exploration",
+		Rule: "part A (rollback erasure): single-client histories in which ~35% of the transactions end in an error (bodies mix successful and failing inserts, updates, merges, deletes, key operations over several blocks) run on collection A while twin B runs the same history without them; after every step Dump(A)==Dump(B)==model, nothing reaches the change stream for a rolled-back transaction; " + ruleSeq,
+		Gen: func(seed uint64, run int, tier string) *Case {
+			p := seqProfile{minSteps: 4, maxSteps: 24, wTxn: 20, wCreateIndex: 1,
+				wInsert: 8, wAt: 8, wRange: 2, wDelete: 4, wDeleteAll: 1, wKey: 10,
+				pAbort: 0.35, pFailInsert: 0.2, pMerge: 0.3, maxCols: 6, multiBlock: 0.4, pKeyCol: 0.3, indexes: true}
+			return genSeq("C02", seed, run, p, knownAvoid("C02", seed, run))
+		},
+		Exec: func(cs *Case) *World { return runSeq(cs, seqOracles{dump: true, twin: true, stream: true}) },
+		Real: realComponents, Stub: seqStub,
+	})
+	register(&PropDef{
+		ID: "C03", Quick: 5000, Thorough: 150000, Level: "exploration",
+		Rule: "single-client histories with bitmap indexes created and dropped at any point (several per column; numeric threshold, string equality/prefix, bool families), writes, merges, deletes, reuse, multi-block transactions and restarts (snapshot+restore); after every step every index is compared, through With(ix) and Row.Bool(ix), with its predicate evaluated on the model values; " + ruleSeq,
+		Gen: func(seed uint64, run int, tier string) *Case {
+			p := seqProfile{minSteps: 5, maxSteps: 28, wTxn: 20, wCreateIndex: 4, wDropIndex: 2, wRestart: 1, wCreateCol: 1,
+				wInsert: 8, wAt: 10, wRange: 3, wDelete: 3, wDeleteAll: 1,
+				pAbort: 0.05, pMerge: 0.4, maxCols: 6, multiBlock: 0.5, indexes: true, filters: true}
+			return genSeq("C03", seed, run, p, knownAvoid("C03", seed, run))
+		},
+		Exec: func(cs *Case) *World { return runSeq(cs, seqOracles{dump: true}) },
+		Real: realComponents, Stub: seqStub,
+	})
+	register(&PropDef{
+		ID: "C04", Quick: 5000, Thorough: 150000, Level: "exploration",
+		Rule: "single-client histories over sparse/dense/multi-block layouts with reused offsets and rows lacking columns; read transactions run generated chains of With/Without/Union/WithUnion/WithValue/WithInt/WithUint/WithFloat/WithString (indexes, value columns, missing names) and Count, the exact Range visiting order, and Sum/Avg/Min/Max of every numeric type are compared with set algebra evaluated on the model; " + ruleSeq,
+		Gen: func(seed uint64, run int, tier string) *Case {
+			p := seqProfile{minSteps: 5, maxSteps: 28, wTxn: 20, wCreateIndex: 2, wDropIndex: 1,
+				wInsert: 7, wAt: 6, wRange: 8, wDelete: 3, wDeleteAll: 2, wCount: 8, wAgg: 8,
+				pAbort: 0.05, pMerge: 0.2, maxCols: 6, multiBlock: 0.5, indexes: true, filters: true}
+			return genSeq("C04", seed, run, p, knownAvoid("C04", seed, run))
+		},
+		Exec: func(cs *Case) *World { return runSeq(cs, seqOracles{dump: true}) },
+		Real: realComponents, Stub: seqStub,
+	})
+	register(&PropDef{
+		ID: "C07", Quick: 4000, Thorough: 120000, Level: "exploration",
+		Rule: "single-client histories with repeated restart steps: Snapshot to a SimFile, Restore through a seeded chunking reader (1 byte .. whole) into a fresh collection with the same schema (indexes created before or after), swap it in and continue the history against the same model; after every step the full dump (values, Count, indexes, keys) is compared and every insert offset is checked against the model's live set; " + ruleSeq,
+		Gen: func(seed uint64, run int, tier string) *Case {
+			p := seqProfile{minSteps: 5, maxSteps: 24, wTxn: 16, wRestart: 5, wCreateIndex: 1,
+				wInsert: 8, wAt: 8, wRange: 2, wDelete: 3, wDeleteAll: 1, wKey: 8,
+				pAbort: 0.05, pMerge: 0.3, maxCols: 10, multiBlock: 0.6, pKeyCol: 0.3, indexes: true}
+			return genSeq("C07", seed, run, p, knownAvoid("C07", seed, run))
+		},
+		Exec: func(cs *Case) *World { return runSeq(cs, seqOracles{dump: true}) },
+		Real: realComponents, Stub: []string{"disk: in-memory SimFile (write recording) and SimReader (seeded read chunking)"},
+	})
+	register(&PropDef{
+		ID: "C11", Quick: 5000, Thorough: 150000, Level: "exploration",
+		Rule: "part A: single-client insert/delete churn producing full, sparse and fragmented fill patterns across 64-bit word and 16K block boundaries under every capacity option, with failing insert callbacks and rollbacks; every offset handed to an insert is checked at the moment it is reserved against the model's live and reserved sets and against a churn bound, every row being inserted must expose nothing, Count and the full dump are compared after every step; " + ruleSeq,
+		Gen: func(seed uint64, run int, tier string) *Case {
+			p := seqProfile{minSteps: 6, maxSteps: 40, wTxn: 20,
+				wInsert: 14, wAt: 3, wRange: 1, wDelete: 8, wDeleteAll: 2,
+				pAbort: 0.15, pFailInsert: 0.15, pMerge: 0.3, maxCols: 5, multiBlock: 0.6}
+			return genSeq("C11", seed, run, p, knownAvoid("C11", seed, run))
+		},
+		Exec: func(cs *Case) *World { return runSeq(cs, seqOracles{dump: true}) },
+		Real: realComponents, Stub: seqStub,
+	})
+	register(&PropDef{
+		ID: "C12", Quick: 5000, Thorough: 150000, Level: "exploration",
+		Rule: "part A: single-client histories of InsertKey/UpsertKey/QueryKey/DeleteKey/SetKey over a 3-6 key alphabet (forcing repeats), several key operations per transaction, rollbacks, restarts; every return value is judged against the committed key map at issue time and after every step the key-map invariants (one live row per key, lookup reaches exactly that row, deleted/re-keyed keys do not resolve) are checked through QueryKey probes of the whole alphabet; " + ruleSeq,
+		Gen: func(seed uint64, run int, tier string) *Case {
+			p := seqProfile{minSteps: 6, maxSteps: 36, wTxn: 20, wRestart: 1,
+				wAt: 4, wRange: 1, wDelete: 3, wKey: 20,
+				pAbort: 0.15, pFailInsert: 0.1, pMerge: 0.3, maxCols: 4, multiBlock: 0.3, pKeyCol: 1}
+			return genSeq("C12", seed, run, p, knownAvoid("C12", seed, run))
+		},
+		Exec: func(cs *Case) *World { return runSeq(cs, seqOracles{dump: true}) },
+		Real: realComponents, Stub: seqStub,
+	})
+	register(&PropDef{
+		ID: "C16", Quick: 5000, Thorough: 150000, Level: "exploration",
+		Rule: "single-client histories over a 5-letter string alphabet (forces equal keys) across several blocks with sorted indexes created before or after the data, overwrites to an existing value, merges, delete-then-reinsert, combined with generated filter chains; every Ascend sequence must contain exactly the selected rows holding a value, each once, in non-decreasing order of the model's current values; " + ruleSeq,
+		Gen: func(seed uint64, run int, tier string) *Case {
+			p := seqProfile{minSteps: 5, maxSteps: 28, wTxn: 20, wCreateSort: 4, wDropSort: 1, wCreateIndex: 1,
+				wInsert: 8, wAt: 8, wRange: 2, wDelete: 4, wDeleteAll: 1, wAscend: 10,
+				pAbort: 0.05, pMerge: 0.3, maxCols: 4, multiBlock: 0.4, indexes: true, filters: true, smallStrings: true, sorts: true,
+				forceKinds: []Kind{KString, KEnum}}
+			return genSeq("C16", seed, run, p, knownAvoid("C16", seed, run))
+		},
+		Exec: func(cs *Case) *World { return runSeq(cs, seqOracles{dump: true}) },
+		Real: realComponents, Stub: seqStub,
+	})
+	register(&PropDef{
+		ID: "C19", Quick: 5000, Thorough: 150000, Level: "exploration",
+		Rule: "single-client histories of puts, merges (incl. length-changing string/record merges), row deletes and rollbacks over several blocks with triggers created and dropped mid-history; after every transaction the callback log is compared, per trigger and row, with the model's committed stores (issue order, value after merge) and deletions; " + ruleSeq,
+		Gen: func(seed uint64, run int, tier string) *Case {
+			p := seqProfile{minSteps: 5, maxSteps: 28, wTxn: 20, wCreateTrig: 5, wDropTrig: 2,
+				wInsert: 8, wAt: 10, wRange: 3, wDelete: 4, wDeleteAll: 1,
+				pAbort: 0.2, pMerge: 0.4, maxCols: 5, multiBlock: 0.5, triggers: true}
+			return genSeq("C19", seed, run, p, knownAvoid("C19", seed, run))
+		},
+		Exec: func(cs *Case) *World { return runSeq(cs, seqOracles{dump: true, triggers: true}) },
+		Real: realComponents, Stub: seqStub,
 	})
 }
